@@ -202,12 +202,37 @@ func TestC03(t *testing.T) {
 			seed := hx.SplitMix(rapid.Uint64().Draw(t, "fill"))
 			card := rapid.SampledFrom([]int{1, 2, 3, 10, 100, 100000}).Draw(t, "card")
 			decl := []string{"c", "a", "b", "", "B"}
+			bigEnum := rapid.IntRange(0, 2).Draw(t, "bigenum") == 0
+			if bigEnum {
+				// the largest possible declared list (255 values, order not alphabetical); the cells favour its two
+				// ends and null, whose internal codes are neighbours of the null code
+				decl = make([]string, 255)
+				for i := range decl {
+					decl[i] = fmt.Sprintf("v%03d", (i*97)%255)
+				}
+			}
+			e1 := hx.FillCol(&seed, "e1", hx.KEnum, n, card, decl)
+			if bigEnum {
+				for i := range e1.S {
+					switch seed.Intn(8) {
+					case 0:
+						e1.S[i] = hx.Sp(decl[0])
+					case 1:
+						e1.S[i] = hx.Sp(decl[254])
+					case 2:
+						e1.S[i] = hx.Sp(decl[253])
+					case 3:
+						e1.S[i] = nil
+					}
+				}
+				classes = append(classes, "enum-255-values")
+			}
 			base := withID(hx.Table{Cols: []hx.Col{
 				hx.FillCol(&seed, "i1", hx.KInt, n, card, nil),
 				hx.FillCol(&seed, "f1", hx.KFloat, n, card, nil),
 				hx.FillCol(&seed, "b1", hx.KBool, n, card, nil),
 				hx.FillCol(&seed, "s1", hx.KString, n, card, nil),
-				hx.FillCol(&seed, "e1", hx.KEnum, n, card, decl),
+				e1,
 			}})
 			d = hx.GenDerived(t, base, 2)
 			orders = genOrders(t, d.Exp, "id")
